@@ -45,6 +45,10 @@ class Missing(metaclass=MissingType):
     def __repr__(self) -> str:
         return "MISSING"
 
+    def __reduce__(self) -> Any:
+        # copying and unpickling have to go through the type call to keep MISSING a singleton
+        return (Missing, ())
+
     def __getattr__(
         self,
         name: str,
